@@ -46,6 +46,7 @@ type c10state struct {
 	seen     map[types.Hash]bool
 	releases int
 	refused  map[string]int
+	unlocked bool // the liquidity administrator unlocked all stake entries
 }
 
 func (s *c10state) ackMomentum(r *nom.AccountBlock) *nom.Momentum {
@@ -272,6 +273,84 @@ func (s *c10state) process(ct types.Address, r, snd *nom.AccountBlock, merr erro
 			to, amt = e.owner, e.amount
 		}
 		release(e, "pillar "+pname, to, types.ZnnTokenStandard, amt, okT, why)
+	case "liquidity.LiquidityStake":
+		if merr == nil {
+			var dur int64
+			_ = definition.ABILiquidity.UnpackMethod(&dur, m.Name, snd.Data)
+			s.ents["liqstake/"+snd.Hash.String()] = &c10ent{kind: "liquidity-stake", id: snd.Hash, owner: snd.Address, token: snd.TokenStandard,
+				amount: new(big.Int).Set(snd.Amount), fromTime: now + dur}
+		}
+	case "liquidity.CancelLiquidityStake":
+		id := new(types.Hash)
+		_ = definition.ABILiquidity.UnpackMethod(id, m.Name, snd.Data)
+		e := s.ents["liqstake/"+id.String()]
+		if merr == nil && e != nil && e.owner != snd.Address {
+			c.Failf("C10/released-to-other", "%s: liquidity stake %v belongs to %v", what, id, e.owner)
+		}
+		if e != nil && e.consumed && merr == nil {
+			if len(valueOut()) != 0 {
+				c.Failf("C10/released-twice", "%s pays out liquidity stake %v a second time", what, id)
+			}
+			return
+		}
+		okT, why := true, ""
+		var to types.Address
+		amt := new(big.Int)
+		tok := types.ZnnTokenStandard
+		if e != nil {
+			// the administrator may unlock all entries early (UnlockLiquidityStakeEntries): then the
+			// contract's own expiration is what counts; the entry's recorded expiration is read back
+			exp := e.fromTime
+			if s.unlocked {
+				if st := s.h.A.Chain.GetAccountStore(ct, r.Previous()); st != nil {
+					if se, err := definition.GetLiquidityStakeEntry(st.Storage(), e.id, e.owner); err == nil && se != nil {
+						exp = se.ExpirationTime
+					}
+				} else {
+					exp = 0 // state before this receive is no longer available: the early unlock cannot be re-checked
+				}
+			}
+			okT, why = now >= exp, fmt.Sprintf("expires at %d, now %d", exp, now)
+			to, amt, tok = e.owner, e.amount, e.token
+		}
+		release(e, "liquidity stake "+id.String()[:8], to, tok, amt, okT, why)
+	case "liquidity.UnlockLiquidityStakeEntries":
+		if merr == nil {
+			s.unlocked = true
+		}
+	case "bridge.UnwrapToken":
+		if merr == nil {
+			p := new(definition.UnwrapTokenParam)
+			_ = definition.ABIBridge.UnpackMethod(p, m.Name, snd.Data)
+			tok := types.ZnnTokenStandard
+			if p.ChainId == 124 {
+				tok = types.QsrTokenStandard
+			}
+			s.ents[fmt.Sprintf("unwrap/%s/%d", p.TransactionHash, p.LogIndex)] = &c10ent{kind: "unwrap", id: p.TransactionHash, owner: p.ToAddress, token: tok,
+				amount: new(big.Int).Set(p.Amount), fromHeight: am.Height + 20}
+		}
+	case "bridge.RevokeUnwrapRequest":
+		if merr == nil {
+			p := new(definition.RevokeUnwrapParam)
+			_ = definition.ABIBridge.UnpackMethod(p, m.Name, snd.Data)
+			if e := s.ents[fmt.Sprintf("unwrap/%s/%d", p.TransactionHash, p.LogIndex)]; e != nil {
+				e.consumed = true // a revoked request can never be redeemed
+				e.name = "revoked"
+			}
+		}
+	case "bridge.Redeem":
+		p := new(definition.RedeemParam)
+		_ = definition.ABIBridge.UnpackMethod(p, m.Name, snd.Data)
+		e := s.ents[fmt.Sprintf("unwrap/%s/%d", p.TransactionHash, p.LogIndex)]
+		okT, why := true, ""
+		var to types.Address
+		amt := new(big.Int)
+		tok := types.ZnnTokenStandard
+		if e != nil {
+			okT, why = am.Height >= e.fromHeight, fmt.Sprintf("redeemable from height %d, now %d", e.fromHeight, am.Height)
+			to, amt, tok = e.owner, e.amount, e.token
+		}
+		release(e, fmt.Sprintf("unwrap request %s/%d", p.TransactionHash.String()[:8], p.LogIndex), to, tok, amt, okT, why)
 	case "sentinel.Register":
 		if merr == nil {
 			s.ents["sentinel/"+snd.Address.String()] = &c10ent{kind: "sentinel", owner: snd.Address, token: types.ZnnTokenStandard,
@@ -334,7 +413,15 @@ func TestC10(t *testing.T) {
 	pbt.Check(t, "C10", func(c *pbt.C) {
 		spec := genSpec(c)
 		spec.ActiveSporks = 2 // HTLC available
-		h := sim.NewHist(c, spec, genWorldOpts(c))
+		opts := genWorldOpts(c)
+		bridgeWorld := c.Weighted("c10.bridgeWorld", 2, 1) == 1
+		if bridgeWorld {
+			opts.Bridge = true
+			for len(spec.Users) < 5 {
+				spec.Users = append(spec.Users, sim.UserSpec{Znn: 9000, Qsr: 90000})
+			}
+		}
+		h := sim.NewHist(c, spec, opts)
 		// release-heavy intent mix
 		for _, in := range sim.DefaultIntents() {
 			h.Intents = append(h.Intents, in)
@@ -353,6 +440,18 @@ func TestC10(t *testing.T) {
 		for _, p := range spec.Pillars {
 			s.ents["pillar/"+p.Name] = &c10ent{kind: "pillar", name: p.Name, owner: sim.PillarKey(p.Key).Address, token: types.ZnnTokenStandard,
 				amount: new(big.Int).Set(p.Amount), regTime: spec.Timestamp}
+		}
+		if bridgeWorld {
+			c.Class("bridge-world")
+			if err := sim.BridgeScript(h, c.Int("c10.wraps", 1, 6), 0); err != nil {
+				c.Class("bridge-script-incomplete")
+			}
+			if err := sim.LiquidityScript(h); err != nil {
+				c.Class("liquidity-script-incomplete")
+			}
+			for i := 0; i < 3; i++ {
+				h.Intents = append(h.Intents, sim.BridgeIntents()...)
+			}
 		}
 		inv := func() {
 			if h.Dead {
@@ -419,6 +518,12 @@ func TestC10(t *testing.T) {
 			"produce": h.ActProduce, "produce2": h.ActProduce,
 			// cross lock windows: stake unit 600 s, fuse 12 momentums, pillar/sentinel cycles 1200+600 s
 			"skipAhead": func() { h.Produce(c.Int("skipAhead", 5, 130)) },
+			// cross height-based windows (fusion expiration, redeem delay)
+			"advance": func() {
+				for i, n := 0, c.Int("advance", 5, 25); i < n && !h.Dead; i++ {
+					h.Produce(0)
+				}
+			},
 		}
 		c.Repeat(acts, inv)
 		for i := 0; i < 2 && !h.Dead; i++ {
